@@ -294,6 +294,14 @@ theorem C12_rmap_keys_alias_witness :
     (Own.abs (Own.final true Own.init [.append 1, .append 2, .keys, .write 0 0 9])).l = [9, 2] ∧
     (Own.pfinal ⟨[], []⟩ [.append 1, .append 2, .keys, .write 0 0 9]).l = [1, 2] := by decide
 
+/-- **Witness (aliasing between answers, the kind of seeded change r5-2): `Keys()` returning a scratch buffer that is
+kept between calls.**  An earlier answer changes when `Keys()` is called again (`[1, 2]` reads `[2, 2]`), which no
+value-level history does. -/
+theorem C12_rmap_keys_scratch_witness :
+    (Own.abs (Own.keysScratch (Own.final false (Own.keysScratch (Own.final false Own.init [.append 1, .append 2]))
+      [.delSwap 0]))).outs = [[2, 2], [2]] ∧
+    (Own.pfinal ⟨[], []⟩ [.append 1, .append 2, .keys, .delSwap 0, .keys]).outs = [[1, 2], [2]] := by decide
+
 /-- A non-trivial history of the copying code: two answers, a re-allocation (`append` beyond the capacity), a
 swap-delete and writes of both callers; the key list and both answers are what the value-level history says. -/
 example : Own.abs (Own.final false Own.init
